@@ -346,6 +346,9 @@ pub enum Inject {
     /// consts carrying one (bogus) constant
     ConstsNonEmpty { comp: usize, party: usize, from: usize },
     Validate { comp: usize, party: usize },
+    /// the party's own leader's validate request whose caller gives up right after the request has been
+    /// queued (the answer channel is closed when the state machine wants to answer)
+    ValidateDropped { comp: usize, party: usize },
     /// a validate request derived from `alt_policies[alt]` (same computation, other program / leader)
     ValidateAlt { comp: usize, party: usize, alt: usize },
     MpcMsg { comp: usize, party: usize, from: usize },
@@ -909,6 +912,17 @@ fn do_inject(shared: &Arc<Shared>, slot: &CallSlot, inj: &Inject, sc: &Scenario,
                     consts.insert("BOGUS".to_string(), Literal::NumUnsigned(1, polytune::garble_lang::token::UnsignedNumType::U8));
                     h.consts(ConstsRequest { from, computation_id: id, consts }).await
                 });
+            }
+        }
+        Inject::ValidateDropped { comp, party } => {
+            if let Some(h) = get(comp, party) {
+                let pol = sc.policies[comp][party].clone();
+                let t_call = shared.tick();
+                slot.lock().unwrap().push(CallRec { what: "validate-dropped".to_string(), comp, party, t_call, t_return: None, result: None, step, compile_thread_alive: compile_alive });
+                let mut fut = Box::pin(async move { h.validate(ValidateRequest::from(&pol)).await });
+                let mut cx = std::task::Context::from_waker(std::task::Waker::noop());
+                let _ = std::future::Future::poll(fut.as_mut(), &mut cx);
+                drop(fut);
             }
         }
         Inject::ValidateAlt { comp, party, alt } => {
